@@ -14,7 +14,13 @@ func init() {
 	extraGens["vesting"] = func(r *rand.Rand, depth int) (string, []Step) { return "vesting", genVestingWalk(r, depth) }
 	extraGens["batch"] = func(r *rand.Rand, depth int) (string, []Step) { return "ledger", genBatchWalk(r, depth) }
 	extraGens["orders"] = func(r *rand.Rand, depth int) (string, []Step) { return "orders", genOrdersWalk(r, depth) }
-	extraGens["chain"] = func(r *rand.Rand, depth int) (string, []Step) { return "chain", genChainWalk(r, depth) }
+	extraGens["chain"] = func(r *rand.Rand, depth int) (string, []Step) {
+		st := genChainWalk(r, depth)
+		if genIndex%4 == 3 { // every fourth walk runs in the variant whose Elys pool is an oracle pool
+			return "chain-o", st
+		}
+		return "chain", st
+	}
 	extraGens["oracle"] = func(r *rand.Rand, depth int) (string, []Step) { return "oracle", genOracleWalk(r, depth) }
 }
 
